@@ -56,6 +56,10 @@ KINDS = 'HCMAEXKSRUPNGTY'
 
 def configs(tier):
     out = []
+    for exc in HANDLER_EXC:
+        for where in ('handler', 'enter'):
+            for via in ('ext', 'direct'):
+                out.append(dict(kind='excclass', exc=exc, where=where, via=via))
     times = (1, 2)
 
     def ok_for(entry, seq):
@@ -654,8 +658,80 @@ def run_initfault(cfg, acc):
     return viol
 
 
+HANDLER_EXC = ['EdzedInvalidState', 'EdzedCircuitError', 'EdzedError', 'ValueError', 'KeyError',
+               'RuntimeError', 'LookupError', 'ZeroDivisionError']
+
+
+def run_excclass(cfg, acc):
+    """
+    A handler (plain block / FSM entry action) fails with an exception of the given class -
+    incl. the library's own classes, e.g. after an attempt to add a block to the running
+    circuit - and the caller catches it: the simulation is terminated with that error.
+    Only EdzedUnknownEvent (unknown type / wrong parameters) is reported to the caller alone.
+    """
+    viol = []
+    cls = getattr(edzed, cfg['exc'], None) or getattr(__import__('builtins'), cfg['exc'])
+    exc = cls(f"injected {cfg['exc']}")
+    res = {}
+    with Sim() as sim:
+        circuit = sim.circuit
+        if cfg['where'] == 'handler':
+            blk = lblock_class()('blk', log=[], cfg={'init_regular': ('set', 0), 'event': ('raise', exc)})
+            etype = 'ev'
+        else:
+            class F(edzed.FSM):
+                STATES = ['a', 'b']
+                EVENTS = [['go', ['a'], 'b']]
+
+                def enter_b(self):
+                    raise exc
+            blk = F('blk')
+            etype = 'go'
+
+        async def driver():
+            task = asyncio.create_task(circuit.run_forever())
+            await circuit.wait_init()
+            try:
+                if cfg['via'] == 'ext':
+                    edzed.ExtEvent(blk, etype).send(1)
+                else:
+                    blk.event(etype, value=1)
+                res['raised'] = None
+            except Exception as err:    # pylint: disable=broad-except  (the caller catches it)
+                res['raised'] = err
+            for _ in range(3):
+                await asyncio.sleep(0)
+            res['ready'] = circuit.is_ready()
+            res['error'] = circuit.error
+            try:
+                await circuit.shutdown()
+                res['shutdown'] = None
+            except BaseException as err:    # pylint: disable=broad-except
+                res['shutdown'] = err
+            del task
+        sim.run(driver())
+    acc.execs += 1
+    acc.outcome(('excclass', cfg['exc'], cfg['where'], cfg['via'], repr(res.get('error')), res.get('ready')))
+    acc.state(('excclass', cfg['where'], cfg['via'], res.get('ready')))
+    tag = (f"{cfg['where']} raises {cfg['exc']} during an event sent via {cfg['via']}, the caller catches the "
+           f"exception")
+
+    def is_ours(err):
+        return err is exc or getattr(err, '__cause__', None) is exc
+    if res['ready'] or res['error'] is None:
+        viol.append(('handler-error-did-not-stop', f"{tag}: the simulation is still running (error {res['error']!r})"))
+    elif not is_ours(res['error']) or not is_ours(res['shutdown']):
+        viol.append(('first-error-replaced', f"{tag}: Circuit.error {res['error']!r}, shutdown() raised "
+                     f"{res['shutdown']!r}"))
+    return viol
+
+
 def run_config(cfg):
     acc = Acc()
+    if cfg['kind'] == 'excclass':
+        for sig, msg in run_excclass(cfg, acc):
+            acc.violation(f"C09:{sig}:excclass", msg, cfg=cfg)
+        return acc
     if cfg['kind'] == 'initfault':
         for sig, msg in run_initfault(cfg, acc):
             acc.violation(f"C09:{sig}:init", msg, cfg=cfg)
